@@ -134,7 +134,7 @@ def _m_cases():
     from vt.props import c03
     for rk in ('one', 'pkg+subpkg', 'package-path'):
         for fi, flt in enumerate(c03.DISK_FILTERS):
-            if '-m' in flt or len(flt) >= 4:
+            if '-m' in flt or len(flt) >= 4 or any('T_c' in x for x in flt):
                 yield ['e2e_disk', rk, fi]
 
 
